@@ -234,12 +234,18 @@ def normalizeRecipients (F : TFacts) (a : J) : Prog J := do
 
 /-! ### `toTombstone` -/
 
+/-- copy member `p` of `obj` onto `t` when the object's type has the property and it is set -/
+def copyMember (F : TFacts) (obj t : J) (p : String) : J :=
+  if has F obj p then (match obj.get? p with
+    | some x => t.set p x
+    | none => t) else t
+
 def toTombstone (F : TFacts) (obj : J) (id : Iri) (now : Int × Int) : J :=
   let t : J := .obj [("type", .str "Tombstone")]
   let t := t.set "id" (.str id)
   let t := t.set "formerType" (.str (typeName obj))
-  let t := if has F obj "published" then (match obj.get? "published" with | some p => t.set "published" p | none => t) else t
-  let t := if has F obj "updated" then (match obj.get? "updated" with | some p => t.set "updated" p | none => t) else t
+  let t := copyMember F obj t "published"
+  let t := copyMember F obj t "updated"
   t.set "deleted" (.str (Time.rfc3339 now.1 now.2))
 
 /-! ### `mustHaveActivityActorsMatchObjectActors` -/
